@@ -188,7 +188,7 @@ def worker_init() -> None:
     # enumerate perturbation targets once per base (deterministic walk)
     STATE["targets"] = {}
     STATE["base_errors"] = {}
-    for name in list(STATE["bases"]) + ["somersault_renamed", "zoo0", "zoo1", "zoo2", "zoo3", "zoo8", "zoo9"]:
+    for name in list(STATE["bases"]) + ["somersault_renamed", "zoo0", "zoo1", "zoo2", "zoo3", "zoo6", "zoo7", "zoo8", "zoo9"]:
         try:
             with W.quiet():
                 db = load_base(name)
@@ -321,6 +321,27 @@ def build_zoo_db(seed: int):
     """A zoo database: 1-2 containers with an ECU variant each built from the zoo shapes."""
     if seed == 9:
         return build_split_db()
+    if seed in (6, 7):
+        # the deterministic matrix layers as a database: every computation-method category (7), variable-length
+        # objects and structures / fields (6)
+        from odxtools.database import Database
+        from odxtools.diaglayercontainer import DiagLayerContainer
+        from odxtools.diaglayers.ecuvariant import EcuVariant
+        from odxtools.nameditemlist import NamedItemList
+        from odxtools.odxlink import DocType, OdxDocFragment, OdxLinkId
+
+        from ..zoo.layers import build_matrix_builder
+        from ..zoo.mk import mk
+        db = Database()
+        for kind in (("compu",) if seed == 7 else ("lengths", "structs")):
+            cname = f"zoomatrix_{kind}"
+            b = build_matrix_builder(kind, container=cname)
+            frag = OdxDocFragment(cname, DocType.CONTAINER)
+            dlc = mk(DiagLayerContainer, odx_id=OdxLinkId(f"{cname}.id", [frag]), short_name=cname,
+                     ecu_variants=NamedItemList([EcuVariant(diag_layer_raw=b.raw())]))
+            db.diag_layer_containers.append(dlc)
+        db.refresh()
+        return db
     if seed == 8:
         # the same with legal short names that cannot be used as Python identifiers / collide with members of
         # the name lists (whoever looks layers up by name must use the short name, not the mangled key)
@@ -876,8 +897,8 @@ def gen(rs: int, index: int, tier: str) -> Dict[str, Any]:
                 alts.append(t["path"])
         alts = alts[:8]
     else:
-        base = weighted(r, ["somersault", "somersault_modified", "somersault_renamed", "zoo0", "zoo1", "zoo2", "zoo3", "zoo9", "zoo8"],
-                        [5, 2, 2, 2, 2, 2, 2, 3, 2])
+        base = weighted(r, ["somersault", "somersault_modified", "somersault_renamed", "zoo0", "zoo1", "zoo2", "zoo3", "zoo9", "zoo8", "zoo7", "zoo6"],
+                        [5, 2, 2, 2, 2, 2, 2, 3, 2, 2, 1])
         vclass = weighted(r, ["plain", "meta", "empty", "none", "ws"], [6, 3, 1, 1, 1])
         tgts = STATE["targets"][base]
         tgt = r.choice(tgts) if vclass != "none" and tgts else None
